@@ -532,6 +532,9 @@ def _parse_schema(
             named_schemas[fullname] = parsed_schema
 
             parsed_schema["name"] = fullname
+            if namespace and "." not in fullname:
+                # Keep a null namespace that differs from the enclosing one
+                parsed_schema["namespace"] = ""
             parsed_schema["symbols"] = schema["symbols"]
 
         elif schema_type == "fixed":
@@ -546,10 +549,14 @@ def _parse_schema(
             named_schemas[fullname] = parsed_schema
 
             parsed_schema["name"] = fullname
+            if namespace and "." not in fullname:
+                # Keep a null namespace that differs from the enclosing one
+                parsed_schema["namespace"] = ""
             parsed_schema["size"] = schema["size"]
 
         elif schema_type == "record" or schema_type == "error":
             # records
+            enclosing_namespace = namespace
             namespace, fullname = schema_name(schema, namespace)
             if fullname in names:
                 raise SchemaParseException(f"redefined named type: {fullname}")
@@ -574,6 +581,9 @@ def _parse_schema(
                 )
 
             parsed_schema["name"] = fullname
+            if enclosing_namespace and "." not in fullname:
+                # Keep a null namespace that differs from the enclosing one
+                parsed_schema["namespace"] = ""
             parsed_schema["fields"] = fields
 
             # Hint that we have parsed the record
